@@ -86,7 +86,7 @@ func (r *runner) runOne(cs *Case, seed uint64) {
 		return
 	}
 	r.check(cs, run)
-	if os.Getenv("HOSTILE_DEBUG") != "" {
+	if d := os.Getenv("HOSTILE_DEBUG"); d != "" && (d == "1" || d == cs.Name) {
 		for i := range run.ops {
 			fmt.Fprintf(os.Stderr, "%s\n    => %s\n", run.ops[i], run.impl[i])
 		}
